@@ -86,6 +86,8 @@ class DocGen(object):
         x = r.random()
         if x < self.o["p_doc"]:
             st["doc"], st["doc_quote"] = self.doc()
+            if r.random() < 0.15:
+                st["table"] = self.table()      # a doc-string followed by a table behind the same step
         elif x < self.o["p_doc"] + self.o["p_table"]:
             st["table"] = self.table()
         return st
